@@ -52,7 +52,10 @@ RULE = {
          'members in use and at least one completion, channel flip or membership change before the last dispatch; '
          'distinct by canonical event list',
   'C04': 'same engine, histories weighted towards every completion kind (reply, error, timeout then late reply, '
-         'fault, fail-fast), leaves of idle / loaded / down members and re-joins while the old node drains; '
+         'fault, fail-fast), leaves of idle / loaded / down members and re-joins while the old node drains, and '
+         'calls parked behind the balancer\'s Open() carrying a deadline whose timeout (driver = ClientTimeoutSink) '
+         'fires at every loop position relative to the open completion (channels drop timed-out messages like the '
+         'mux send loop; a request that completed before it was dispatched never counts as outstanding); '
          'non-trivial = at least one completion and one leave of a member that had been dispatched to, or a late '
          'arrival; distinct by canonical event list',
   'C05': 'join/leave histories (duplicates, unknown leaves, re-joins) interleaved with traffic and with the open '
@@ -94,16 +97,24 @@ def models(prop, tier):
              what='heap.py as found with 5 members: no counterexample exists below 6 members (calibration)')
   m4d = dict(module='HeapBalancer', cfg='HeapBalancer_4d.cfg', timeout=7200, heap='24g',
              what='2 endpoints, 4 node objects, loads <= 1: removal / re-join / down-up / late arrival')
+  gate = dict(module='LbBase', cfg='LbBase_gate.cfg', coverage=True,
+              what='the open gate for requests: 2 calls parked behind __open_ar, their timeout (Observable.Set: value '
+                   'at once, subscribers notified from a spawned greenlet) at every position relative to '
+                   '__open_ar.set() and the deferred link callbacks; a call that completed while parked is never '
+                   'dispatched')
+  gate_s = dict(module='LbBase', cfg='LbBase_gateS.cfg', expect_violation='NoDeadDispatch',
+                what='counterexample generator: the variant of the gate that learns about the timeout from a '
+                     'subscriber flag instead of timeout_event.Get() dispatches a completed call (load +1 forever)')
   lb = dict(module='LbBase', cfg='LbBase_q.cfg' if quick else 'LbBase_t.cfg', coverage=True, timeout=7200,
-            heap='24g',
+            heap='24g', may_be_unused=['Park', 'Timeout', 'OpenComplete', 'RunDeferred'],
             what='open sequence (provider failure + retry, early/late snapshot), __init_done gate, serial '
                  'notifications: all histories of %d notifications over 3 symmetric endpoint names' % (5 if quick else 6))
   if prop == 'C03':
     return [m6, m6u, m4f] if quick else [m6, m6u, m5u, m4f, m7]
   if prop == 'C04':
-    return [m3d, m4m] if quick else [m3d, m4m, m4f, m4d]
+    return [m3d, m4m, gate, gate_s] if quick else [m3d, m4m, gate, gate_s, m4f, m4d]
   if prop == 'C05':
-    return [lb, m4m] if quick else [lb, m4m, m4f]
+    return [lb, gate, m4m] if quick else [lb, gate, m4m, m4f]
   raise ValueError(prop)
 
 
@@ -120,7 +131,8 @@ def _drive(script):
   from harness.simgevent.vloop import EPOCH  # noqa
   from scales.asynchronous import AsyncResult
   from scales.constants import ChannelState, SinkProperties
-  from scales.message import Message, MethodReturnMessage
+  from scales.message import Deadline, Message, MethodReturnMessage
+  from scales.observable import Observable
   from scales.message import TimeoutError as ScalesTimeout
   from scales.sink import ClientMessageSink, ClientMessageSinkStack
   import scales.loadbalancer.base as lb_base
@@ -385,7 +397,7 @@ def _drive(script):
     def AsyncProcessResponse(self, sink_stack, context, stream, msg):
       rq = H.reqs[context]
       rq['term'] += 1
-      if rq['chan'] is None and rq['term'] == 1:
+      if rq['chan'] is None and rq['term'] == 1 and not rq.get('tdone'):
         err = 'other'
         try:
           if isinstance(msg.error, lb_base.NoMembersError):
@@ -394,6 +406,15 @@ def _drive(script):
           pass
         disp_event(rq, None, err)
   term = Term()
+
+  class ToSink(ClientMessageSink):
+    """The ClientTimeoutSink's frame on the stack (its context would be the timer's cancel closure)."""
+    def AsyncProcessRequest(self, *a):
+      raise NotImplementedError()
+
+    def AsyncProcessResponse(self, sink_stack, context, stream, msg):
+      sink_stack.AsyncProcessResponse(stream, msg)
+  tosink = ToSink()
 
   def disp_event(rq, ch, err):
     r = rq['r']
@@ -407,9 +428,13 @@ def _drive(script):
       fresh = 1 if ch.cid > base else 0
     else:
       fresh = 1 if ch.tick == H.tick else 0
-    emit({'e': 'Disp', 'r': r, 'n': ch.cid if ch else -1, 'err': err, 'st': ch._st if ch else 0,
-          'fresh': fresh, 'hasU': 0 if u is None else 1, 'U': u or []})
-    rq['state'] = 'out' if ch else 'done'
+    dead = 1 if (ch is not None and rq.get('tdone')) else 0
+    d = {'e': 'Disp', 'r': r, 'n': ch.cid if ch else -1, 'err': err, 'st': ch._st if ch else 0,
+         'fresh': fresh, 'hasU': 0 if u is None else 1, 'U': u or []}
+    if dead:
+      d['dead'] = 1       # the request had already completed (timed out while parked) when it was dispatched
+    emit(d)
+    rq['state'] = ('dropped' if dead else 'out') if ch else 'done'
 
   def on_receive(ch, sink_stack, msg):
     r = msg.properties.get('vr')
@@ -419,6 +444,11 @@ def _drive(script):
       return
     disp_event(rq, ch, 'none')
     rq['chan'] = ch
+    evt = msg.properties.get(Deadline.EVENT_KEY)
+    if rq['state'] == 'dropped' or (evt is not None and evt.Get()):
+      # like the mux send loop: a message whose timeout event is already set is dropped, no reply
+      rq['state'] = 'dropped'
+      return
     H.ref_out[ch.cid] += 1
     if rq['push']:
       sink_stack.Push(ch, r)
@@ -548,7 +578,7 @@ def _drive(script):
     ar = open_ar[0]
     return ar is None or not ar.ready()
 
-  def dispatch(push, ff):
+  def dispatch(push, ff, dl=False):
     H.nreq += 1
     r = H.nreq
     rq = {'r': r, 'chan': None, 'state': 'new', 'term': 0, 'push': bool(push), 'ff': bool(ff), 'late': False}
@@ -557,6 +587,12 @@ def _drive(script):
     msg.properties['vr'] = r
     stack = ClientMessageSinkStack()
     stack.Push(term, r)
+    if dl:
+      # what ClientTimeoutSink.AsyncProcessRequest does above the balancer (the driver is the timer)
+      rq['evt'] = Observable()
+      msg.properties[Deadline.KEY] = loop.now() + 3600.0
+      msg.properties[Deadline.EVENT_KEY] = rq['evt']
+      stack.Push(tosink, r)
     rq['stack'] = stack
     was_gated = gated()
     exc = None
@@ -591,6 +627,18 @@ def _drive(script):
     else:
       guard('comp', st.AsyncProcessResponseMessage, MethodReturnMessage(error=Exception(knd)))
     del srand.forced[:]
+
+  def fire_timeout(rq):
+    """ClientTimeoutSink._TimeoutHelper: set the event, post TimeoutError on the request's stack."""
+    if rq['state'] == 'out':
+      rq['evt'].Set(True)
+      complete(rq, 'timeout', None)
+    elif rq['state'] == 'held':
+      rq['tdone'] = True
+      rq['state'] = 'tdone'
+      emit({'e': 'Tmo', 'r': rq['r']})
+      rq['evt'].Set(True)
+      guard('tmo', rq['stack'].AsyncProcessResponseMessage, MethodReturnMessage(error=ScalesTimeout()))
 
   def outstanding():
     return [H.reqs[r] for r in sorted(H.reqs) if H.reqs[r]['state'] == 'out']
@@ -683,6 +731,31 @@ def _drive(script):
         quanta(op[3] if len(op) > 3 else -1)
     elif k == 'disp':
       dispatch(op[1] if len(op) > 1 else 0, op[2] if len(op) > 2 else 0)
+    elif k == 'disp_dl':
+      dispatch(op[1] if len(op) > 1 else 0, 0, True)
+    elif k == 'tmo':
+      o = [H.reqs[r] for r in sorted(H.reqs) if H.reqs[r].get('evt') is not None
+           and H.reqs[r]['state'] in ('out', 'held')]
+      if o:
+        fire_timeout(o[op[1] % len(o)])
+    elif k == 'cb':
+      for _ in range(op[1]):
+        if not loop.has_callbacks():
+          break
+        loop.step_callback()
+    elif k == 'cb_chan':
+      # run callbacks one at a time until the balancer has asked some channel to open
+      for _ in range(200):
+        if any(c.open_ar is not None and not c.open_ar.ready() for c in H.chans) or not loop.has_callbacks():
+          break
+        loop.step_callback()
+    elif k == 'cb_open':
+      # run callbacks one at a time up to the instant the balancer's open result is set: the parked
+      # calls' link callbacks have not run yet
+      for _ in range(200):
+        if not gated() or not loop.has_callbacks():
+          break
+        loop.step_callback()
     elif k == 'comp':
       o = outstanding()
       if o:
@@ -922,6 +995,81 @@ def _family_small():
   return out
 
 
+def _family_parked():
+  """Requests handed to the balancer BEFORE its Open() completes, some carrying a deadline
+  (Deadline.EVENT_KEY), the driver playing ClientTimeoutSink: the timeout fires at every position
+  relative to the open completion - well before it, after j = 0..15 loop callbacks, exactly between
+  __open_ar.set() and the parked calls' link callbacks, and after the parked call was dispatched."""
+  out = []
+  tail = [['comp', 0, 'reply', 0], ['comp', 0, 'reply', 0], ['comp', 0, 'error', 0], ['leave', 1, -1],
+          ['leave', 2, -1], ['settle'], ['join', 1, -1], ['probe']]
+  for kind in ('heap', 'aperture'):
+    for pol in ('manual', 'sync', 'auto'):
+      pre = [['pol', pol], ['open'], ['disp_dl', 0], ['disp', 0, 0], ['disp_dl', 1]]
+      mid = [['cb_chan'], ['opendone', 0, 1, 0]] if pol == 'manual' else []
+      variants = [pre + mid + [['cb', j], ['tmo', 0], ['settle'], ['tmo', 0], ['settle']] for j in range(16)]
+      variants.append(pre + mid + [['cb_open'], ['tmo', 0], ['cb', 1], ['tmo', 0], ['settle']])
+      variants.append(pre + mid + [['cb_open'], ['tmo', 1], ['tmo', 0], ['settle']])
+      variants.append(pre + [['tmo', 0]] + mid + [['settle'], ['tmo', 0], ['settle']])
+      variants.append(pre + mid + [['settle'], ['tmo', 0], ['tmo', 0], ['settle']])
+      for ops in variants:
+        sc = {'kind': kind, 's0': [1, 2], 'rseed': 1, 'pol': pol, 'load': {'mode': 'nonblock'}, 'ops': ops + tail}
+        if kind == 'aperture':
+          sc['ap'] = {'min_size': 2, 'max_size': 2, 'min_load': 0.5, 'max_load': 2.0}
+        out.append(sc)
+  return out
+
+
+def _gen_parked(rng, kind):
+  """Random variant of _family_parked: several parked calls, timeouts at random loop positions."""
+  n = rng.choice([1, 2, 3])
+  pol = rng.choice(['manual', 'sync', 'auto'])
+  sc = {'kind': kind, 's0': list(range(1, n + 1)), 'rseed': rng.randint(0, 10 ** 6), 'pol': pol,
+        'load': {'mode': rng.choice(['nonblock', 'nonblock', 'late'])}}
+  if kind == 'aperture':
+    sc['ap'] = {'min_size': rng.choice([1, 2]), 'max_size': 3, 'min_load': 0.5, 'max_load': 2.0}
+  ops = [['pol', pol], ['open']]
+
+  def some():
+    for _ in range(rng.randint(0, 3)):
+      x = rng.random()
+      if x < 0.45:
+        ops.append(['disp_dl', rng.randint(0, 1)])
+      elif x < 0.6:
+        ops.append(['disp', 0, 0])
+      elif x < 0.85:
+        ops.append(['tmo', rng.randrange(8)])
+      else:
+        ops.append(['cb', rng.randint(1, 3)])
+  ops.append(['disp_dl', 0])
+  some()
+  ops.append(['step', rng.choice([0, 1, 1, 2])])
+  some()
+  if sc['load']['mode'] != 'nonblock':
+    ops.append(['release', rng.choice([0, 1, 2])])
+    some()
+  if pol == 'manual':
+    ops.append(['cb_chan'])
+    ops.append(['opendone', rng.randrange(4), 1 if rng.random() < 0.8 else 0, 0])
+  ops.append(rng.choice([['cb_open'], ['cb', rng.randint(0, 12)]]))
+  for _ in range(rng.randint(1, 4)):
+    ops.append(rng.choice([['tmo', rng.randrange(8)], ['tmo', rng.randrange(8)], ['cb', 1], ['disp_dl', 0]]))
+  ops.append(['settle'])
+  for _ in range(rng.randint(2, 8)):
+    x = rng.random()
+    if x < 0.3:
+      ops.append(['comp', rng.randrange(8), rng.choice(['reply', 'error', 'timeout']), 0])
+    elif x < 0.5:
+      ops.append(['tmo', rng.randrange(8)])
+    elif x < 0.7:
+      ops.append(['disp_dl', 0])
+    else:
+      ops.append(['leave', rng.randint(1, n), -1])
+  ops.append(['probe'])
+  sc['ops'] = ops
+  return sc
+
+
 def cases(prop, tier, seed):
   rng = random.Random(7919 * int(seed) + {'C03': 3, 'C04': 4, 'C05': 5}[prop])
   quick = tier == 'quick'
@@ -935,6 +1083,9 @@ def cases(prop, tier, seed):
       out.append(_gen_traffic(rng, 'heap' if i % 3 else 'aperture', prop))
   elif prop == 'C04':
     out.extend(_family_small())
+    out.extend(_family_parked())
+    for i in range(150 if quick else 1500):
+      out.append(_gen_parked(rng, 'heap' if i % 2 else 'aperture'))
     n = 1100 if quick else 8000
     for i in range(n):
       out.append(_gen_traffic(rng, 'heap' if i % 3 else 'aperture', prop))
